@@ -14,13 +14,13 @@ P = {
             "Lengths bounded (DESIGN 3.4); trusted: ref_crc8; selector cell reached through the verif-hooks accessor.", "5/C02"),
     "C03": ("Bounded model checking of every encoder: last byte == independent bit-serial CRC-8 of all previous bytes, for all arguments; body lengths are concrete per harness instance.",
             "Trusted: ref_crc8 (8 lines). Lengths outside the listed instances are outside the claim.", "5/C03"),
-    "C04": ("Bounded model checking of bytes 0..3, byte count, returned length and get_length on every >=3-byte prefix for every encoder; oversize bodies must be refused.",
+    "C04": ("Bounded model checking of bytes 0..3, byte count, returned length and get_length on every >=3-byte prefix for every encoder; oversize bodies must be refused; panics of the encoder or the probe on these paths count as violations.",
             "7-bit addresses as the property states; body sizes per harness instance.", "5/C04"),
-    "C05": ("Bounded model checking of bytes 4..8 of every encoder's output for all 256 source addresses and destination values.",
+    "C05": ("Bounded model checking of bytes 4..8 of every encoder's output for all 256 source addresses and destination values (every packet writer also at its maximum body size), and of the transport header of the responses process_packet writes for every flag/sequence/tag combination of the request.",
             "Expected header bytes written from DSP0236 table 1.", "5/C05"),
     "C06": ("Bounded model checking of the body bytes of all 17 request encoders against a table written from DSP0236 clause 12, every parameter symbolic; complete (fixed sizes).",
             "Trusted: the expected-layout table in the harness.", "5/C06"),
-    "C07": ("Bounded model checking of the body bytes of the six response encoders for every completion code, enum combination, stored EID, UUID, type list 0..30 and vendor field 0..7 bytes.",
+    "C07": ("Bounded model checking of the body bytes of the six response encoders for every completion code, enum combination, stored EID, UUID, type list 0..30 and vendor field 0..7 bytes; the responses process_packet writes (flag bits, command echo, completion code, EID / version fields) from an arbitrary context state.",
             "Trusted: the expected-layout expressions in the harness.", "5/C07"),
     "C08": ("Bounded model checking of vendor_defined (every format byte, every 32-bit id) and the PCI/IANA/SPDM/secured packet writers: bytes from the type byte on equal header-then-body verbatim.",
             "Body lengths bounded per instance.", "5/C08"),
